@@ -8,11 +8,47 @@ from ..gen import prog as P
 from ..gen import render
 
 
+def output_files_project(rng):
+    """Several banks with their own output files: files that cannot be created (their directory does not exist), and one file named
+    by several banks in different spellings. What is written before the build stops, which error is printed and who writes last
+    must not depend on a hash order."""
+    nb = rng.randrange(2, 6)
+    broken = rng.random() < 0.6
+    spellings = ["gfx.bin", "../target/gfx.bin", "./gfx.bin", "sub/../gfx.bin"]
+    lines = []
+    for i in range(nb):
+        r = rng.random()
+        if broken and r < 0.5:
+            fn = "%s/out%d.bin" % (rng.choice(["gfx", "snd", "a/b"]), i)         # target/gfx does not exist
+        elif r < 0.75:
+            fn = rng.choice(spellings[:2] if not broken else spellings)
+        else:
+            fn = "out%d.bin" % i
+        lines.append('.define bank { name = "b%d" filename = "%s" }' % (i, fn))
+    for i in range(nb):
+        lines.append('.define segment { name = "s%d" start = $%04x bank = "b%d" }' % (i, 0x1000 * (i + 1), i))
+    for i in range(nb):
+        lines.append('.segment "s%d" { .byte %s }' % (i, ", ".join(str(rng.randrange(256)) for _ in range(rng.randrange(1, 6)))))
+    return "output-files-" + ("uncreatable" if broken else "aliases"), {"main.asm": "\n".join(lines) + "\n"}
+
+
 def invalid_project(rng):
     """Projects with errors: repeated occurrences of one undefined name, several names, errors spread over imported files."""
-    kind = rng.choice(["same-name", "several-names", "multi-file", "mixed-classes", "many-imports", "import-clashes", "hard-errors-in-files"])
+    kind = rng.choice(["same-name", "several-names", "multi-file", "mixed-classes", "many-imports", "import-clashes", "hard-errors-in-files",
+                       "very-many-undefined", "output-files"])
     files = {}
-    if kind == "same-name":
+    if kind == "very-many-undefined":
+        # hundreds of distinct (scope, name, place) uses of undefined names: many names, or a macro with undefined names invoked
+        # many times (every invocation has a scope of its own)
+        if rng.random() < 0.5:
+            k = rng.randrange(101, 400)
+            files["main.asm"] = "\n".join("%s und%d" % (rng.choice(["lda", "sta", "jmp", ".word"]), i) for i in range(k)) + "\n"
+        else:
+            k = rng.randrange(51, 150)
+            files["main.asm"] = ".macro put(v) {\n    lda first_zz\n    sta second_zz + v\n}\n" + "\n".join("put(%d)" % i for i in range(k)) + "\n"
+    elif kind == "output-files":
+        return output_files_project(rng)
+    elif kind == "same-name":
         k = rng.randrange(5, 13)
         files["main.asm"] = "\n".join(rng.choice(["lda foo", "sta foo,x", ".word foo", "jmp foo", ".byte <foo", "cmp #>foo"]) for _ in range(k)) + "\n"
     elif kind == "several-names":
